@@ -299,6 +299,8 @@ def run(ck: Check):
             if "skipped" in d:
                 continue
             p0, p1 = d["plain"], d["inj"]
+            if d.get("generic_target"):
+                continue           # a key next to the keys of a generic-form dictionary changes its reading: judged by the model only
             if p0["kind"] != "ok" or p0.get("unsupported") or p0["obs"] is None:
                 continue
             rp = {"job": job_replay_info(j), "json": d["doc"], "key": d["key"], "path": d["path"], "fail": d["fail"]}
